@@ -1,0 +1,13 @@
+//go:build verif
+
+package util
+
+// VerifYield, when set by a verification harness, is called at named yield points of the Queue so
+// that goroutine interleavings can be forced deterministically.
+var VerifYield func(point string) //nolint:gochecknoglobals
+
+func verifYield(point string) {
+	if f := VerifYield; f != nil {
+		f(point)
+	}
+}
